@@ -182,7 +182,9 @@ def run_many(mirror, target_dirs, jobs, logdir, parallel=14, mem_budget_gb=50, o
     """jobs: list of dicts with at least 'harness'; optional 'timeout', 'mem_gb'.
     target_dirs: a base path; worker k uses <base>_w<k> so that concurrent cargo invocations never
     contend for the same build-directory lock (each invocation recompiles the crate for its harness).
-    Admission is memory-aware: the sum of the jobs' mem_gb limits never exceeds mem_budget_gb."""
+    Admission is memory-aware: the sum of the jobs' mem_gb limits never exceeds mem_budget_gb
+    (VERIF_MEM_GB overrides the default, e.g. to run two checks side by side)."""
+    mem_budget_gb = float(os.environ.get("VERIF_MEM_GB", mem_budget_gb))
     import queue
     import threading
     os.makedirs(logdir, exist_ok=True)
